@@ -12,6 +12,7 @@ only look at the transcripts, never at the model.
 """
 from __future__ import annotations
 
+import asyncio
 import gc
 import itertools
 import re
@@ -124,7 +125,7 @@ _STATUS = re.compile(rb'^\* STATUS \S+ \(MESSAGES (\d+) RECENT (\d+) UIDNEXT (\d
                      rb'UIDVALIDITY (\d+)\)\r\n', re.M)
 _ROW = re.compile(rb'^\* (\d+) FETCH \(UID (\d+) FLAGS \(([^)]*)\) '
                   rb'BODY\[HEADER\.FIELDS \(SUBJECT\)\] \{(\d+)\}\r\n'
-                  rb'Subject: m(\d+)\r\n', re.M)
+                  rb'Subject: m(\d+)\r?\n', re.M)
 
 
 def expand_set(b: bytes) -> list[int]:
@@ -195,7 +196,7 @@ class World:
         c = await self.conn(s)
         self.ntag += 1
         tag = b't%d' % self.ntag
-        raw = await c.send(tag + b' ' + line + b'\r\n')
+        raw = await asyncio.wait_for(c.send(tag + b' ' + line + b'\r\n'), 20)
         st, text = tagged(raw, tag)
         self.log.append({'s': s, 'cmd': line[:120], 'raw': raw})
         if b'SERVERBUG' in raw or c.exc is not None:
@@ -208,7 +209,7 @@ class World:
         for c in self.conns.values():
             if not c.closed:
                 try:
-                    await c.send(b'zz LOGOUT\r\n')
+                    await asyncio.wait_for(c.send(b'zz LOGOUT\r\n'), 5)
                 except Exception:
                     pass
         self.conns.clear()
@@ -242,7 +243,7 @@ class World:
             c = self.conns.get(s)
             if c is not None and not c.closed:
                 self.ntag += 1
-                raw = await c.send(b't%d LOGOUT\r\n' % self.ntag)
+                raw = await asyncio.wait_for(c.send(b't%d LOGOUT\r\n' % self.ntag), 5)
                 self.log.append({'s': s, 'cmd': b'LOGOUT', 'raw': raw})
             self.conns.pop(s, None)
             gc.collect()
